@@ -75,8 +75,8 @@ prop("C06",
                 "deme that was active and not hibernating advances by exactly one entry, every other deme is untouched, stopping is final; "
                 "run_step: freshly sprouted demes have history length 1 (they run from the next metaepoch)",
      level_note="all seven deme classes (EA, DE, SHADE, CMA-ES, LHS, Sobol, local search) are proved to refine the abstract contract; each does so "
-                "under its class invariant, which its constructor is proved to establish and its run_metaepoch to keep (that nothing else breaks "
-                "it between the two is a framing argument on paper); scipy.optimize.minimize and cma enter through interface contracts; " + MODEL_NOTE,
+                "from the tree invariant alone: the class invariants of the deme classes are part of it (established by the constructors, kept by "
+                "every run_metaepoch, preserved for the other demes by all tree-level functions); scipy.optimize.minimize and cma enter through interface contracts; " + MODEL_NOTE,
      assumptions=[], undecided_subclauses=[])
 
 prop("C11",
